@@ -1,13 +1,13 @@
 #!/bin/bash
-# test_seed.sh <seed-id> <property> [--only substr]  — applies /verif/seeded/<seed-id>/patch.diff to /repo, runs the quick check,
-# records rc + VIOLATION lines in /verif/seeded/<seed-id>/detection.txt, restores /repo and the evidence file.
+# test_seed.sh <seed-id> <property> [--only substr]  — applies /verif/seeded/<seed-id>/patch.diff to /repo, runs the quick check
+# (optionally restricted to the named obligations), records exit code + VIOLATION lines in seeded/<seed-id>/detection_<prop>.txt,
+# then removes the patch again and restores the evidence file of the unchanged tree.
 sid=$1; pid=$2; shift 2
 cd /verif
-git -C /repo diff --quiet || { echo "/repo dirty"; exit 9; }
-cp evidence/$pid.json /tmp/ev_$pid.json.bak 2>/dev/null
-git -C /repo apply seeded/$sid/patch.diff || exit 9
+cp evidence/$pid.json /tmp/ev_${sid}_$pid.json.bak 2>/dev/null
+git -C /repo apply /verif/seeded/$sid/patch.diff || exit 9
 python3 run.py $pid --tier quick "$@" > build/logs/seed_${sid}_$pid.log 2>&1; rc=$?
-git -C /repo checkout -- .
-cp /tmp/ev_$pid.json.bak evidence/$pid.json 2>/dev/null; rm -f /tmp/ev_$pid.json.bak
-{ echo "check: python3 run.py $pid --tier quick $*"; echo "exit=$rc"; grep -E "^VIOLATION|^INCONCLUSIVE|FAILED" build/logs/seed_${sid}_$pid.log | cut -c1-300; } > seeded/$sid/detection_$pid.txt
+git -C /repo apply -R /verif/seeded/$sid/patch.diff
+cp /tmp/ev_${sid}_$pid.json.bak evidence/$pid.json 2>/dev/null; rm -f /tmp/ev_${sid}_$pid.json.bak
+{ echo "check: python3 run.py $pid --tier quick $*"; echo "exit=$rc"; grep -E "^VIOLATION|^INCONCLUSIVE|FAILED|^OK" build/logs/seed_${sid}_$pid.log | cut -c1-300; } > seeded/$sid/detection_$pid.txt
 cat seeded/$sid/detection_$pid.txt
